@@ -117,6 +117,55 @@ impl ObjectStore for SlowStore {
 }
 
 // ---------------------------------------------------------------------------
+// FailSwitchStore: every write fails while the switch is on (a catalog that cannot be written
+// for a while); reads and everything else pass through.
+
+#[derive(Debug)]
+pub struct FailSwitchStore {
+    pub inner: std::sync::Arc<dyn ObjectStore>,
+    pub failing: std::sync::atomic::AtomicBool,
+    pub failed: std::sync::atomic::AtomicU64,
+}
+
+impl std::fmt::Display for FailSwitchStore {
+    fn fmt(&self, f: &mut std::fmt::Formatter<'_>) -> std::fmt::Result {
+        write!(f, "FailSwitchStore")
+    }
+}
+
+#[async_trait]
+impl ObjectStore for FailSwitchStore {
+    async fn put_opts(&self, location: &OPath, payload: PutPayload, opts: PutOptions) -> object_store::Result<PutResult> {
+        if self.failing.load(std::sync::atomic::Ordering::SeqCst) {
+            self.failed.fetch_add(1, std::sync::atomic::Ordering::SeqCst);
+            return Err(object_store::Error::Generic { store: "FailSwitchStore", source: "injected: the catalog store refuses writes".into() });
+        }
+        self.inner.put_opts(location, payload, opts).await
+    }
+    async fn put_multipart_opts(&self, location: &OPath, opts: PutMultipartOpts) -> object_store::Result<Box<dyn MultipartUpload>> {
+        self.inner.put_multipart_opts(location, opts).await
+    }
+    async fn get_opts(&self, location: &OPath, options: GetOptions) -> object_store::Result<GetResult> {
+        self.inner.get_opts(location, options).await
+    }
+    async fn delete(&self, location: &OPath) -> object_store::Result<()> {
+        self.inner.delete(location).await
+    }
+    fn list(&self, prefix: Option<&OPath>) -> BoxStream<'_, object_store::Result<ObjectMeta>> {
+        self.inner.list(prefix)
+    }
+    async fn list_with_delimiter(&self, prefix: Option<&OPath>) -> object_store::Result<ListResult> {
+        self.inner.list_with_delimiter(prefix).await
+    }
+    async fn copy(&self, from: &OPath, to: &OPath) -> object_store::Result<()> {
+        self.inner.copy(from, to).await
+    }
+    async fn copy_if_not_exists(&self, from: &OPath, to: &OPath) -> object_store::Result<()> {
+        self.inner.copy_if_not_exists(from, to).await
+    }
+}
+
+// ---------------------------------------------------------------------------
 // FlakyBodyStore: whole-object downloads arrive in pieces, and every `every`-th one is cut
 // after some bytes with an error in the body stream (the request itself succeeded).
 
